@@ -320,6 +320,9 @@ pub enum StoreError {
     /// The path was absolute; only relative paths are allowed.
     #[error("the path must be relative")]
     PathIsAbsolute,
+    /// The path contained something other than plain file or directory names, e.g. `..` or `.`.
+    #[error("the path must consist of plain file or directory names only")]
+    InvalidPathComponent,
     /// The path was not a plain file, but e.g. a directory or symlink.
     #[error("only plain files are allowed, no symlinks")]
     NotPlainFile,
